@@ -76,12 +76,14 @@ CLAIMED = {
         "technique": "loop-range / alias analysis of every loop over the request queues, definite-assignment "
                      "abstract interpretation of the enqueue functions over struct fields, call-precondition and "
                      "id-parity table rules (clang CFG + AST)",
-        "text": "Decides five structural necessary conditions of wait/cancel equivalence: every one of the ~48 loops "
+        "text": "Decides six structural necessary conditions of wait/cancel equivalence: every one of the ~48 loops "
                 "that index a request queue ranges over that queue's own length field (aliases resolved); no read "
                 "through a stale element pointer inside a queue-compaction loop; every field of an enqueued "
                 "NC_lead_req/NC_req is assigned on all successful paths of both enqueue functions; callers of "
                 "ncmpio_add_record_requests divide nelems by the record count first; request-id parity is consistent "
-                "between assigners and classifiers. It does not decide equality of file contents with blocking "
+                "between assigners and classifiers; in the sorted queue insertion of both enqueue functions the amount the "
+                "non-lead queue grows by, the shift of its elements and the nonlead_off adjustment of the displaced lead "
+                "requests are one expression. It does not decide equality of file contents with blocking "
                 "execution, nor merge/sort/interleave logic in req_aggregation (seeded change C02_a is missed).",
         "note": "assume_mpi_ok; queue fields identified by struct NC field identity; the sorted-insert exception for "
                 "nonlead_off is path-conditioned, not blanket.",
@@ -149,14 +151,19 @@ CLAIMED = {
     "C19": {
         "technique": "typestate taint of untrusted header words (raw / converted-to-signed / bounded) over clang CFGs, "
                      "dominance rule for buffer refill width, guard rule on hint-derived table sizes, queue loop-range "
-                     "pairing",
-        "text": "Decides four structural necessary conditions of 'malformed input fails cleanly': each of the 22 "
+                     "pairing; interprocedural double-release / use-after-release analysis with symbolic pointer values "
+                     "and per-return-class callee summaries; cell-wise decision of the type-code validator",
+        "text": "Decides six structural necessary conditions of 'malformed input fails cleanly / no freed memory is used': each of the 22 "
                 "integers read from a file header is upper-bounded as a raw word, or sign-tested after conversion to a "
                 "signed type, before its first non-comparison use (or is a listed field that is dead / validated "
                 "later, which is re-verified); the 4- and 8-byte header reads are dominated by a refill test of the "
                 "same width; hash-table sizes taken from hints are rejected unless >= 1; loops over the request queues "
-                "stay inside the queue. It does not decide absence of undefined behaviour in general, double frees "
-                "(seeded change C19_b is missed), typed access to byte-sliced buffers, or resource proportionality.",
+                "stay inside the queue; a type code from the header is accepted exactly for 1..6 (CDF-1/2) or 1..11 "
+                "(CDF-5); and, over ~960 library functions with interprocedural release summaries per return-value "
+                "class, no heap object is released twice or dereferenced after release on any explored path (a bound "
+                "on a word already converted to a signed or narrower type does not count as a bound on the word). It "
+                "does not decide absence of undefined behaviour in general, typed access to byte-sliced buffers, or "
+                "resource proportionality; 7 oversized functions are outside the release analysis (frozen list).",
         "note": "field identities from clang; LATER table: NC_var.len (dead), NC_var.begin (ncmpio_NC_check_voffs).",
         "design_ref": "DESIGN.md section 3 / C19, rule R9a",
     },
@@ -169,8 +176,11 @@ CLAIMED = {
                 "the driver only with NC_REQ_ZERO set (collective) or not at all (independent); the zero-length path "
                 "transfers (NULL, 0); check_EINVALCOORDS agrees with the documented strict/relaxed rule on every "
                 "ordering of its inputs and its call sites are index-aligned; check_EEDGE agrees with the documented "
-                "rule on a bounded grid (bounded only - it uses arithmetic). Offset arithmetic of accepted requests, "
-                "and the request-merging geometry (seeded change C15_b), are not decided.",
+                "rule on a bounded grid (bounded only - it uses arithmetic); vars_flatten turns a request into "
+                "exactly the byte ranges of the addressed elements in packed-buffer order, and merge_requests keeps "
+                "exactly the requested bytes, sorted and disjoint, first request winning (both bounded, against "
+                "independent models): writes stay inside the requested region. Offset arithmetic of accepted requests "
+                "beyond these slices is not decided.",
         "note": "mput/mget examined with nvars >= 1; nprocs > 1 on the collective zero-length branch.",
         "design_ref": "DESIGN.md section 3 / C15",
     },
@@ -221,16 +231,23 @@ CLAIMED = {
     "C10": {
         "technique": "table and dominance rules over the hint parser's CFG: per-hint accepted-domain extraction "
                      "(repair tests after the parse) compared with a consumer-domain table, must-pass-through rule "
-                     "for the report-back calls, reaching-definition rule on the reported string",
-        "text": "Decides only the hint-table clauses: for every hint parsed in ncmpio_set_pnetcdf_hints the values "
+                     "for the report-back calls, reaching-definition rule on the reported string; for the intra-node "
+                     "aggregation layer: parallel-array co-update rule, bounded evaluation of the flattening and merge "
+                     "slices against element-wise models",
+        "text": "Decides the hint-table clauses and structural clauses of the aggregation layer: for every hint parsed in ncmpio_set_pnetcdf_hints the values "
                 "the parser lets through lie inside the domain its consumers are total on (hash sizes >= 1, alignments "
                 "and aggregator counts >= 0), so that no hint value can change an error code or crash; every hint key "
                 "read is written to info_used on every path; and the string reported (there and in ncmpio_inq_misc) "
-                "is printed from the field holding the value in force. Equality of file content / read data / error "
-                "codes across configurations is differential and is NOT decided; independence of the collective "
+                "is printed from the field holding the value in force. For intra-node write aggregation (a "
+                "configuration that must not change results): offsets/lengths/buffer-address arrays are swapped and "
+                "compacted together; flatten_subarray and the record loop of flatten_req address exactly the elements "
+                "of a (start,count,stride) request, and the overlap merge keeps exactly the requested bytes with the "
+                "first request winning (bounded grids, compared with independent models). Equality of file content / "
+                "read data / error codes across configurations in general is differential and is NOT decided; independence of the collective "
                 "structure from safe mode and process count is decided under C08.",
         "note": "The consumer-domain table is hand-confirmed from the consumers (hash & (size-1), D_RNDUP, "
-                "nprocs / num_aggrs_per_node); a parsed hint with no table entry is reported.",
+                "nprocs / num_aggrs_per_node); a parsed hint with no table entry is reported. Found and fixed: "
+                "F-C10-1 (record stride ignored by the aggregator).",
         "design_ref": "DESIGN.md section 3 / C10",
     },
     "C06": {
@@ -298,8 +315,11 @@ CLAIMED = {
                 "reported difference increments a difference counter on all paths of its mismatch branch (also when "
                 "output is suppressed), every counter reaches the exit status, every value/attribute type dispatch "
                 "covers all 11 external types, and ncmpidiff's division of a variable among processes tiles the "
-                "dimension (bounded). NOT decided: the validator's semantic strictness beyond the grammar, "
-                "ncmpidump/ncmpigen/ncoffsets output, tolerance arithmetic.",
+                "dimension (bounded); ncoffsets' own parser also equals the specification grammar; the validator "
+                "accepts a type code exactly when the format version allows it, and a non-zero verdict (fatal or "
+                "NC_ENULLPAD) of any of its parser/check functions reaches the exit status even if a later "
+                "iteration succeeds. NOT decided: the validator's other semantic checks, ncmpidump/ncmpigen output, "
+                "tolerance arithmetic.",
         "note": "Found and fixed: ncmpidiff had no NC_BYTE case in its three dispatches (F-C20-1..3).",
         "design_ref": "DESIGN.md section 3 / C20",
     },
